@@ -153,7 +153,7 @@ func (ex *Exec) harnessPrim(st *State, fn *ssa.Function, args []Value, in *ssa.C
 	case "vJoin":
 		return true
 	case "vReach":
-		st.reached = append(st.reached, name())
+		st.reached = append(st.reached, st.top().fn.Name()+":"+name())
 	case "vAllocMark":
 		st.allocs = nil
 	case "vMaxAlloc":
@@ -180,6 +180,14 @@ func (ex *Exec) harnessPrim(st *State, fn *ssa.Function, args []Value, in *ssa.C
 			c = False
 		}
 		setRes(st, in, c)
+	case "vAnd":
+		setRes(st, in, And(args[0].(*Term), args[1].(*Term)))
+	case "vOr":
+		setRes(st, in, Or(args[0].(*Term), args[1].(*Term)))
+	case "vImp":
+		setRes(st, in, Or(Not(args[0].(*Term)), args[1].(*Term)))
+	case "vIte":
+		setRes(st, in, Ite(args[0].(*Term), args[1].(*Term), args[2].(*Term)))
 	case "vBencode":
 		iv := args[0].(IfaceV)
 		v, ok := ex.load(st, iv.V.(PtrV), pos)
